@@ -23,6 +23,9 @@ type FileIORWManager struct {
 
 // NewFileIORWManager returns a newly initialized FileIORWManager.
 func NewFileIORWManager(path string, capacity int64) (*FileIORWManager, error) {
+	if vf := verifOp("open", path, 0, 0, nil); vf != nil {
+		return nil, vf.Err
+	}
 	fd, err := os.OpenFile(path, os.O_CREATE|os.O_RDWR, 0644)
 	if err != nil {
 		return nil, err
@@ -39,12 +42,19 @@ func NewFileIORWManager(path string, capacity int64) (*FileIORWManager, error) {
 // WriteAt writes len(b) bytes to the File starting at byte offset off.
 // `WriteAt` is a wrapper of the *File.WriteAt.
 func (fm *FileIORWManager) WriteAt(b []byte, off int64) (n int, err error) {
+	if vf := verifOp("write", fm.fd.Name(), off, int64(len(b)), b); vf != nil {
+		if vf.Partial > 0 {
+			_, _ = fm.fd.WriteAt(b[:vf.Partial], off)
+		}
+		return vf.Partial, vf.Err
+	}
 	return fm.fd.WriteAt(b, off)
 }
 
 // ReadAt reads len(b) bytes from the File starting at byte offset off.
 // `ReadAt` is a wrapper of the *File.ReadAt.
 func (fm *FileIORWManager) ReadAt(b []byte, off int64) (n int, err error) {
+	verifOp("read", fm.fd.Name(), off, int64(len(b)), nil)
 	return fm.fd.ReadAt(b, off)
 }
 
@@ -53,6 +63,9 @@ func (fm *FileIORWManager) ReadAt(b []byte, off int64) (n int, err error) {
 // of recently written data to disk.
 // `Sync` is a wrapper of the *File.Sync.
 func (fm *FileIORWManager) Sync() (err error) {
+	if vf := verifOp("sync", fm.fd.Name(), 0, 0, nil); vf != nil {
+		return vf.Err
+	}
 	return fm.fd.Sync()
 }
 
@@ -61,5 +74,6 @@ func (fm *FileIORWManager) Sync() (err error) {
 // be canceled and return immediately with an error.
 // `Close` is a wrapper of the *File.Close.
 func (fm *FileIORWManager) Close() (err error) {
+	verifOp("close", fm.fd.Name(), 0, 0, nil)
 	return fm.fd.Close()
 }
